@@ -1,3 +1,4 @@
+import numbers
 import textwrap
 import collections.abc
 
@@ -185,7 +186,7 @@ class NDCollection(dict):
 
         # Case 1: int
         # First aligned axis is dropped.
-        if isinstance(item, int):
+        if isinstance(item, numbers.Integral):
             drop_aligned_axes_indices = [0]
             # Insert item to each cube's slice item.
             for i, key in enumerate(self):
@@ -206,7 +207,7 @@ class NDCollection(dict):
             if len(item) > self.n_aligned_axes:
                 raise IndexError("Too many indices")
             for i, axis_item in enumerate(item):
-                if isinstance(axis_item, int):
+                if isinstance(axis_item, numbers.Integral):
                     drop_aligned_axes_indices.append(i)
                 for j, key in enumerate(self):
                     collection_items[j][self.aligned_axes[key][i]] = axis_item
